@@ -85,15 +85,20 @@ func UnlockEnvelope(
 		unlockedIndexes = append(unlockedIndexes, uint32(gi)) //nolint:gosec // gi bounded by grants slice length
 
 		// Extract shares from the grant, deduplicating by ID.
+		// The ID is compared in its canonical encoding: different byte
+		// strings can decode to the same scalar.
 		g := group.Ristretto255
 		for _, s := range inner.GetShares() {
-			idKey := hex.EncodeToString(s.GetId())
-			if _, dup := seen[idKey]; dup {
-				continue
-			}
-
 			id := g.NewScalar()
 			if err := id.UnmarshalBinary(s.GetId()); err != nil {
+				continue
+			}
+			idBytes, err := id.MarshalBinary()
+			if err != nil {
+				continue
+			}
+			idKey := hex.EncodeToString(idBytes)
+			if _, dup := seen[idKey]; dup {
 				continue
 			}
 			val := g.NewScalar()
